@@ -67,7 +67,7 @@ if ok:
         shutil.copy(f"{src}/{f}", f"{dst}/{f}")
     notes = open(f"{dst}/notes.md").read()
     meta = {"property": prop, "files_touched": res["files"], "needs_to_manifest": " ".join(notes.split())[:700],
-            "origin": "independent sub-agent (fourth batch) given only the property text, a one-line list of earlier ideas to avoid, and a scratch worktree of /repo (nothing from /verif)",
+            "origin": "independent sub-agent (fifth batch, wave g) given only the property text, a one-line list of earlier ideas to avoid, and a scratch worktree of /repo (nothing from /verif)",
             "confirmed": {"demo_on_unchanged_tree": "exit 0 (PASS)", "demo_with_patch": "exit 1 (FAIL)", "full_suite_with_patch": f"no new failures ({res['summary']}; failing: {', '.join(res['failed'])})",
                           "how": "tools/confirm_seed.py: scratch worktree of /repo HEAD under /tmp, PYTHONPATH=<worktree>/src, the repository's baseline pytest command; worktree removed afterwards"},
             "checks": [prop], "harness_informed_of_this_change_before_detection": False, "first_run": "(pending)"}
